@@ -1,3 +1,351 @@
 package main
 
-func cmdCheck(args []string) {}
+// `govc check <property>`: generate, discharge, triage, write evidence.
+
+import (
+	"encoding/json"
+	"flag"
+	"fmt"
+	"os"
+	"path/filepath"
+	"sort"
+	"strconv"
+	"strings"
+	"time"
+)
+
+type KnownFinding struct {
+	Property   string `json:"property"`
+	Obligation string `json:"obligation"`
+	Status     string `json:"status"` // open | fixed
+	What       string `json:"what"`
+	Commit     string `json:"commit,omitempty"`
+	Replay     string `json:"replay,omitempty"`
+}
+
+type Evidence struct {
+	PropertyID  string                 `json:"property_id"`
+	Tier        string                 `json:"tier"`
+	Seed        int                    `json:"seed"`
+	Level       string                 `json:"level"`
+	Coverage    map[string]interface{} `json:"coverage"`
+	Assumptions []string               `json:"assumptions"`
+	WallS       float64                `json:"wall_s"`
+	Violations  int                    `json:"violations"`
+}
+
+func hasProp(ps []string, id string) bool {
+	for _, p := range ps {
+		if p == id {
+			return true
+		}
+	}
+	return false
+}
+
+func cmdCheck(args []string) {
+	fs := flag.NewFlagSet("check", flag.ExitOnError)
+	tier := fs.String("tier", envOr("VERIF_TIER", "quick"), "quick|thorough")
+	updateBaseline := fs.Bool("update-baseline", false, "rewrite the baseline of obligation names for this property")
+	fs.Parse(args)
+	if fs.NArg() < 1 {
+		fmt.Fprintln(os.Stderr, "usage: govc check <property-id>")
+		os.Exit(2)
+	}
+	pid := fs.Arg(0)
+	verif := envOr("VERIF_DIR", "/verif")
+	repo := envOr("VERIF_REPO", "/repo")
+	seed, _ := strconv.Atoi(envOr("VERIF_SEED", "0"))
+	t0 := time.Now()
+
+	engineFail := func(msg string) {
+		fmt.Printf("ENGINE-ERROR property=%s %s\n", pid, msg)
+		os.Exit(2)
+	}
+
+	eng, err := LoadEngine(repo, verif)
+	if err != nil {
+		// the tree does not load (does not compile): nothing can be decided
+		engineFail("cannot load /repo: " + err.Error())
+	}
+	if len(eng.db.Errors) > 0 {
+		engineFail("contract errors: " + strings.Join(eng.db.Errors, "; "))
+	}
+
+	timeout := 20
+	solverList := []string{"z3-new", "z3-em", "cvc5"}
+	if *tier == "thorough" {
+		timeout = 120
+		solverList = []string{"z3-new", "z3-em", "cvc5", "z3"}
+	}
+	work := filepath.Join(verif, "work", pid)
+	os.RemoveAll(work)
+	os.MkdirAll(work, 0755)
+
+	var keys []string
+	for k, ct := range eng.db.Contracts {
+		if !ct.Trusted && hasProp(ct.Props, pid) {
+			keys = append(keys, k)
+		}
+	}
+	sort.Strings(keys)
+
+	var obls []*Obligation
+	var structural []Result // missing functions, refusals, scans
+	var fnList []string
+	assumptions := map[string]bool{}
+	uncontracted := map[string]bool{}
+	var notes []string
+	for _, k := range keys {
+		ct := eng.db.Contracts[k]
+		fn := eng.FindFunction(k)
+		if fn == nil {
+			structural = append(structural, Result{Name: shortKey(k) + "/exists:function", Kind: "exists", Fn: k, Status: "missing", Text: "function under contract no longer exists"})
+			continue
+		}
+		g := NewGen(eng, fn, ct)
+		g.Run()
+		if g.refuse != "" {
+			structural = append(structural, Result{Name: shortKey(k) + "/refused", Kind: "refused", Fn: k, Status: "refused", Text: g.refuse})
+			continue
+		}
+		fnList = append(fnList, k)
+		// automatic vacuity canaries
+		entry := &Obligation{Name: g.fnShort() + "/canary:entry-reachable", Kind: "canary", Fn: k, PrefixLen: g.entryPrefix, PC: "true", Goal: "false", Canary: true, Script: g.sc}
+		obls = append(obls, entry)
+		if len(g.rets) > 0 {
+			var pcs []string
+			for _, rp := range g.rets {
+				pcs = append(pcs, rp.st.pc)
+			}
+			exit := &Obligation{Name: g.fnShort() + "/canary:exit-reachable", Kind: "canary", Fn: k, PrefixLen: len(g.sc.lines), PC: "(or " + strings.Join(pcs, " ") + " false)", Goal: "false", Canary: true, Script: g.sc}
+			obls = append(obls, exit)
+		}
+		obls = append(obls, g.obls...)
+		for a := range g.assumptions {
+			assumptions[a] = true
+		}
+		for u := range g.uncontracted {
+			uncontracted[u] = true
+		}
+		if ct.Arith != "checked" {
+			assumptions["machine arithmetic in "+shortKey(k)+" modelled exactly with wrap-around (no overflow obligations claimed there)"] = true
+		}
+		for _, n := range g.notes {
+			notes = append(notes, shortKey(k)+": "+n)
+		}
+	}
+	// lemmas
+	for _, lm := range eng.db.Lemmas {
+		if hasProp(lm.Props, pid) {
+			o, err := eng.lemmaObligation(lm)
+			if err != nil {
+				structural = append(structural, Result{Name: "lemma:" + lm.Name, Kind: "lemma", Status: "error", Text: err.Error()})
+				continue
+			}
+			obls = append(obls, o)
+		}
+	}
+	// scans
+	for _, sc := range propScans[pid] {
+		structural = append(structural, sc(eng)...)
+	}
+
+	results := SolveAll(obls, SolveOpts{Solvers: solverList, TimeoutS: timeout, Workdir: work, Parallel: 6})
+	results = append(results, structural...)
+
+	known := loadKnown(filepath.Join(verif, "known_findings.json"))
+	baselinePath := filepath.Join(verif, "baseline", pid+".json")
+	var baseline []string
+	if b, err := os.ReadFile(baselinePath); err == nil {
+		json.Unmarshal(b, &baseline)
+	}
+
+	discharged, total := 0, 0
+	var violations []string
+	var knownLines []string
+	var engineErrs []string
+	var samples []map[string]interface{}
+	var solverMs int64
+	have := map[string]bool{}
+	canaries := 0
+	for _, r := range results {
+		have[r.Name] = true
+		solverMs += r.Ms
+		if r.Canary {
+			canaries++
+			if r.Status == "unsat" {
+				engineErrs = append(engineErrs, "canary proved (vacuous context?): "+r.Name)
+			} else if r.Status == "error" {
+				engineErrs = append(engineErrs, "canary query error: "+r.Name+": "+firstWord(r.Output))
+			}
+			continue
+		}
+		total++
+		if len(samples) < 400 {
+			samples = append(samples, map[string]interface{}{"name": r.Name, "kind": r.Kind, "solver": r.Solver, "result": r.Status, "ms": r.Ms})
+		}
+		if r.Status == "unsat" || r.Status == "ok" {
+			discharged++
+			continue
+		}
+		if r.Status == "error" && r.Kind != "lemma" && r.Kind != "scan" {
+			engineErrs = append(engineErrs, "solver error on "+r.Name+": "+firstWord(r.Output))
+			continue
+		}
+		// failed obligation
+		if kf := matchKnown(known, pid, r.Name); kf != nil {
+			knownLines = append(knownLines, fmt.Sprintf("KNOWN-FINDING: property=%s %s [%s]", pid, kf.What, r.Name))
+			total-- // a recorded finding is neither counted as an obligation nor as discharged
+			continue
+		}
+		path := writeReplay(work, pid, r)
+		suffix := ""
+		if !r.replayed {
+			suffix = " no-failing-input-found"
+		}
+		violations = append(violations, fmt.Sprintf("VIOLATION property=%s replay=%s%s", pid, path, suffix))
+		fmt.Printf("  failed: %s (%s, %s) %s\n", r.Name, r.Status, r.Solver, r.Text)
+	}
+	// obligations that existed in the baseline but are gone
+	for _, n := range baseline {
+		if !have[n] {
+			if kf := matchKnown(known, pid, n); kf != nil {
+				continue
+			}
+			r := Result{Name: n, Kind: "exists", Status: "missing", Text: "obligation of the committed baseline is no longer generated (contract target changed or removed)"}
+			path := writeReplay(work, pid, r)
+			violations = append(violations, fmt.Sprintf("VIOLATION property=%s replay=%s no-failing-input-found", pid, path))
+			fmt.Printf("  missing: %s\n", n)
+			total++
+		}
+	}
+	if *updateBaseline {
+		var names []string
+		for _, r := range results {
+			if !r.Canary && (r.Status == "unsat" || r.Status == "ok") {
+				names = append(names, r.Name)
+			}
+		}
+		sort.Strings(names)
+		os.MkdirAll(filepath.Dir(baselinePath), 0755)
+		b, _ := json.MarshalIndent(names, "", " ")
+		os.WriteFile(baselinePath, b, 0644)
+	}
+
+	// evidence
+	var as []string
+	for a := range assumptions {
+		as = append(as, a)
+	}
+	var trusted []string
+	for k := range eng.usedContracts {
+		ct := eng.db.Contracts[k]
+		if ct != nil && ct.Trusted {
+			kind := "extern contract (assumed)"
+			if !ct.Extern {
+				kind = "storage-leaf contract (assumed; body is SQL)"
+			}
+			trusted = append(trusted, kind+": "+k)
+		}
+	}
+	for u := range uncontracted {
+		trusted = append(trusted, "uncontracted callee (effects havocked, result unconstrained): "+u)
+	}
+	trusted = append(trusted, "go/types + go/ssa (x/tools v0.29.0) as semantics of the source", "govc VC generator (this tool)", "SMT solvers z3 5.1.0 / cvc5 1.0.3 / z3 4.8.12")
+	sort.Strings(trusted)
+	sort.Strings(as)
+	as = append(as, staticAssumptions...)
+	ev := Evidence{PropertyID: pid, Tier: *tier, Seed: seed, Level: "proof", WallS: time.Since(t0).Seconds(), Violations: len(violations), Assumptions: as,
+		Coverage: map[string]interface{}{
+			"obligations":              total,
+			"discharged":               discharged,
+			"checker_cmd":              fmt.Sprintf("govc check %s --tier %s  (solvers %s, %ds/obligation, queries generated from %s)", pid, *tier, strings.Join(solverList, "|"), timeout, repo),
+			"trusted_base":             trusted,
+			"functions_under_contract": fnList,
+			"samples":                  samples,
+			"solver_time_s":            float64(solverMs) / 1000.0,
+			"canaries_checked":         canaries,
+			"known_findings":           knownLines,
+			"engine_notes":             notes,
+			"undecided_clauses":        undecidedClauses[pid],
+			"contract_files":           eng.db.Files,
+		}}
+	os.MkdirAll(filepath.Join(verif, "evidence"), 0755)
+	b, _ := json.MarshalIndent(ev, "", " ")
+	os.WriteFile(filepath.Join(verif, "evidence", pid+".json"), b, 0644)
+
+	for _, l := range knownLines {
+		fmt.Println(l)
+	}
+	fmt.Printf("property %s: %d/%d obligations discharged, %d functions, %d canaries, %.1fs\n", pid, discharged, total, len(fnList), canaries, time.Since(t0).Seconds())
+	if len(engineErrs) > 0 {
+		for _, e := range engineErrs {
+			fmt.Println("ENGINE-ERROR:", e)
+		}
+		os.Exit(2)
+	}
+	if total == 0 {
+		engineFail("no obligations generated")
+	}
+	if len(violations) > 0 {
+		for _, v := range violations {
+			fmt.Println(v)
+		}
+		os.Exit(1)
+	}
+	os.Exit(0)
+}
+
+func shortKey(k string) string { return strings.ReplaceAll(k, repoMod+"/", "") }
+
+var staticAssumptions = []string{
+	"callee bodies are replaced by their contracts (modular verification); trusted/extern contracts are assumed",
+	"pointer parameters are non-nil unless declared nullable; scalar-typed pointer parameters do not alias struct fields",
+	"append is modelled as reallocation with copy",
+	"termination is not proved",
+	"goroutines/channels are outside the supported subset (functions using them are refused)",
+}
+
+var undecidedClauses = map[string][]string{}
+
+func loadKnown(path string) []KnownFinding {
+	var k []KnownFinding
+	if b, err := os.ReadFile(path); err == nil {
+		json.Unmarshal(b, &k)
+	}
+	return k
+}
+
+func matchKnown(ks []KnownFinding, pid, name string) *KnownFinding {
+	for i := range ks {
+		if ks[i].Status == "open" && ks[i].Property == pid && ks[i].Obligation == name {
+			return &ks[i]
+		}
+	}
+	return nil
+}
+
+func writeReplay(work, pid string, r Result) string {
+	dir := filepath.Join(work, "replay")
+	os.MkdirAll(dir, 0755)
+	path := filepath.Join(dir, sanitize(r.Name)+".json")
+	out := r.Output
+	if len(out) > 20000 {
+		out = out[:20000]
+	}
+	qpath := ""
+	if r.Query != "" {
+		qpath = filepath.Join(dir, sanitize(r.Name)+".smt2")
+		os.WriteFile(qpath, []byte(r.Query), 0644)
+	}
+	m := map[string]interface{}{"property": pid, "obligation": r.Name, "kind": r.Kind, "function": r.Fn, "clause": r.Text, "pos": r.Pos,
+		"solver": r.Solver, "solver_result": r.Status, "solver_output": out, "query": qpath, "replayed_on_real_code": r.replayed, "replay_test": r.replayTest, "replay_output": r.replayOut}
+	b, _ := json.MarshalIndent(m, "", " ")
+	os.WriteFile(path, b, 0644)
+	return path
+}
+
+type scanFn func(eng *Engine) []Result
+
+var propScans = map[string][]scanFn{}
